@@ -41,7 +41,6 @@ def knownUnlisted : List (String × Nat) := [
   ("checkLibraryFunction", 0x636865636b4c69627261727946756e6374696f6e),
   ("checkLibraryNoReturn", 0x636865636b4c6962726172794e6f52657475726e),
   ("checkLibraryUseIgnore", 0x636865636b4c69627261727955736549676e6f7265),
-  ("cppcheckLimit", 0x637070636865636b4c696d6974),
   ("ctuArrayIndex", 0x6374754172726179496e646578),
   ("ctuOneDefinitionRuleViolation", 0x6374754f6e65446566696e6974696f6e52756c6556696f6c6174696f6e),
   ("ctuPointerArith", 0x637475506f696e7465724172697468),
@@ -51,25 +50,15 @@ def knownUnlisted : List (String × Nat) := [
   ("ctuuninitvar", 0x637475756e696e6974766172),
   ("derefInvalidIteratorRedundantCheck", 0x6465726566496e76616c69644974657261746f72526564756e64616e74436865636b),
   ("funcArgNamesDifferentUnnamed", 0x66756e634172674e616d6573446966666572656e74556e6e616d6564),
-  ("instantiationError", 0x696e7374616e74696174696f6e4572726f72),
   ("integerOverflowCond", 0x696e74656765724f766572666c6f77436f6e64),
-  ("internalAstError", 0x696e7465726e616c4173744572726f72),
-  ("internalError", 0x696e7465726e616c4572726f72),
-  ("iterateByValue", 0x69746572617465427956616c7565),
   ("noValidConfiguration", 0x6e6f56616c6964436f6e66696775726174696f6e),
   ("normalCheckLevelMaxBranches", 0x6e6f726d616c436865636b4c6576656c4d61784272616e63686573),
-  ("nullPointerArithmeticOutOfMemory", 0x6e756c6c506f696e74657241726974686d657469634f75744f664d656d6f7279),
-  ("nullPointerArithmeticOutOfResources", 0x6e756c6c506f696e74657241726974686d657469634f75744f665265736f7572636573),
   ("passedByValueCallback", 0x706173736564427956616c756543616c6c6261636b),
   ("returnImplicitInt", 0x72657475726e496d706c69636974496e74),
-  ("safeIntegerOverflow", 0x73616665496e74656765724f766572666c6f77),
-  ("safeSignConversion", 0x736166655369676e436f6e76657273696f6e),
   ("signConversionCond", 0x7369676e436f6e76657273696f6e436f6e64),
   ("subtractPointers", 0x7375627472616374506f696e74657273),
   ("templateRecursion", 0x74656d706c617465526563757273696f6e),
-  ("tooLargeBitField", 0x746f6f4c617267654269744669656c64),
-  ("uninitMemberVarNoCtor", 0x756e696e69744d656d6265725661724e6f43746f72),
-  ("unknownMacro", 0x756e6b6e6f776e4d6163726f)
+  ("tooLargeBitField", 0x746f6f4c617267654269744669656c64)
 ]
 
 def exemptCodes : List Nat := exemptIds.map (·.2)
